@@ -38,6 +38,7 @@ def run(ctx):
     a_action_tracking(ctx, t)
     a_finished_actions_get_no_events(ctx, t)
     f_main_flow_siblings(ctx, t)
+    f_main_queued_starts(ctx, t)
     f_remove_only_ended(ctx)
     f_failed_before_start_not_restarted(ctx, t)
     d_cleanup_keeps_reference(ctx, t)
@@ -87,6 +88,38 @@ def a_finished_actions_get_no_events(ctx, t):
 
 
 RT2_ = "nemoguardrails/colang/v2_x/runtime/runtime.py"
+
+
+def f_main_queued_starts(ctx, t):
+    """`When a flow ends ... every flow it started is stopped`.  A start that the ended flow had QUEUED (`await a or b(...)`: one branch queues StartFlow(a), the other fails the
+    flow in the same pass) must not be carried out afterwards.  For ordinary flows the dispatch ignores a StartFlow whose sender is done; an ended MAIN flow is not done but WAITING
+    (it behaves like an activated flow), so that test does not cover it (F173): either both main-flow branches purge the queued starts of the instance, or the dispatch test
+    itself knows the waiting main flow."""
+    disp = find_function(t, "_process_internal_events_without_default_matchers")
+    if disp is None:
+        raise AnalysisError("dispatch of internal events not found", anchor=SM + "::_process_internal_events_without_default_matchers")
+    ignore_tests = [i for i in ast.walk(disp) if isinstance(i, ast.If) and "_is_done_flow" in src(i.test) and "source_flow" in src(i.test)]
+    ctx.floor("C06.f.main-queued-starts", SM, "the dispatch ignores the start of a flow whose sender has ended", len(ignore_tests), 1)
+    in_dispatch = any(re.search(r"['\"]main['\"]|WAITING", src(i.test)) for i in ignore_tests)
+    purgers = {f.name for f in ast.walk(t) if isinstance(f, ast.FunctionDef) and "START_FLOW" in src(f) and any(
+        (isinstance(c, ast.Call) and isinstance(c.func, ast.Attribute) and c.func.attr == "remove" and src(c.func.value).endswith("internal_events")) or
+        (isinstance(c, ast.Assign) and src(c.targets[0]).endswith("internal_events")) for c in ast.walk(f))}
+    for name in ("_finish_flow", "_abort_flow"):
+        fn = find_function(t, name)
+        if fn is None:
+            raise AnalysisError("%s not found" % name, anchor=SM + "::" + name)
+        special = [i for i in ast.walk(fn) if isinstance(i, ast.If) and re.search(r"flow_id\s*==\s*['\"]main['\"]", src(i.test))
+                   and any(isinstance(a, ast.Assign) and src(a.targets[0]).endswith(".status") and src(a.value).endswith("WAITING") for st in i.body for a in ast.walk(st))]
+        if not special:
+            continue    # reported by C06.f.main-flow-siblings
+        purged = any(isinstance(c, ast.Call) and isinstance(c.func, ast.Name) and c.func.id in purgers for st in special[0].body for c in ast.walk(st)) or \
+            any(isinstance(c, ast.Call) and isinstance(c.func, ast.Attribute) and c.func.attr == "remove" and src(c.func.value).endswith("internal_events") for st in special[0].body for c in ast.walk(st))
+        ok = purged or in_dispatch
+        ctx.check("C06.f.main-queued-starts", SM, name, "an ended main flow does not carry out its queued starts", ok,
+                  "the starts that the ended main instance had queued are %s" % ("removed from the queue of internal events" if purged else "ignored by the dispatch") if ok else
+                  "%s puts the ended main flow back to WAITING and leaves its queued StartFlow events in the queue; the dispatch only ignores starts of a sender that is DONE, so the flow "
+                  "is started as a child of the main flow after the children and actions of the main flow were cleaned up - it keeps running (its action is never stopped)" % name,
+                  line=special[0].lineno)
 
 
 def f_main_flow_siblings(ctx, t):
